@@ -39,8 +39,10 @@ CASE_TIMEOUT = 600
 SHARD_SIZE = 1
 USE_REACH = False
 
-STRIDES = {"quick": 2, "thorough": 16}
-QUICK_SAMPLE = 130
+STRIDES = {"quick": 1, "thorough": 16}
+QUICK_STRIDES = {"polygon ^ polygon (crossing)": 10, "polygon - polygon (crossing)": 5, "connected & simple (contained)": 4,
+                 "polygon & polygon (crossing)": 4, "copy of disjoint": 3, "polygon == rotated polygon": 2, "simple | connected (contained)": 3}
+QUICK_SAMPLE = 50
 LINE_FUNCTIONS = (
     "SimpleShape._contains_shape", "JordanCurve.invert", "JordanCurve.split",
     "JordanCurve.__split_segment", "JordanCurve.segments", "FollowPath.split_two_jordans",
@@ -205,14 +207,13 @@ def enumerate_op(case, ctx, opname, build, run, mode, stride, offset, sample=Non
         twins = [battery(o) for o in build()]
         ks = list(range(1 + offset, total + 1, stride))
         if sample is not None and len(ks) > sample:
-            # first and last occurrence of every distinct site + a seeded sample
-            first, last = {}, {}
+            # first occurrence (within this stride) of every distinct site + a seeded sample
+            first = {}
             for idx, site in enumerate(sites, start=1):
                 if (idx - 1 - offset) % stride:
                     continue
                 first.setdefault(site, idx)
-                last[site] = idx
-            keep = set(first.values()) | set(last.values())
+            keep = set(first.values())
             rest = [k for k in ks if k not in keep]
             ctx.rng.shuffle(rest)
             ks = sorted(keep | set(rest[:max(0, sample - len(keep))]))
@@ -343,8 +344,8 @@ def plan(tier):
     """list of case descriptors"""
     out = []
     names = sorted(ops_fixed()) if tier == "quick" else sorted(ops_thorough())
-    stride = STRIDES[tier]
     for name in names:
+        stride = QUICK_STRIDES.get(name, 1) if tier == "quick" else STRIDES[tier]
         for off in range(stride):
             out.append(("call", name, off))
     if tier == "thorough":
@@ -396,7 +397,7 @@ def case(ctx):
         rec = case.finish()
         rec["site_keys"] = []
         return rec
-    stride = STRIDES[tier]
+    stride = QUICK_STRIDES.get(name, 1) if tier == "quick" else STRIDES[tier]
     if what == "random":
         opname, build, run, spec = random_op(ctx.rng)
         case.spec.update(spec)
